@@ -17,7 +17,11 @@ import threading
 
 import numpy as np
 
+import contextlib
+import io
+
 from ..common import execute_cases, qs
+from ..lib_callenv import lay, callenv, bits
 
 S = 10**6
 HALS_CAP = 2000          # sweeps when not in exact=True mode (the solver's own stopping rule never fires, see report)
@@ -25,6 +29,7 @@ FISTA_CAP = 5000
 VARIANTS = [("hals", "cold"), ("hals", "ones"), ("hals", "exact"),
             ("hals", "nzr"), ("hals", "eps"), ("hals", "subopt_a"), ("hals", "trunc"),       # option / chained variants
             ("hals", "far4"), ("hals", "far5"), ("hals", "farc"),                            # legal starts FAR from the solution
+            ("hals", "cb_tuple"), ("hals", "cb_float"), ("hals", "cb_false"), ("hals", "cb_true3"),   # callback return values
             ("fista", "cold"), ("fista", "ones"), ("fista", "tol0"), ("fista", "partial_a"), ("fista", "other"),
             ("fista", "eps"), ("fista", "subopt_a"), ("fista", "trunc"), ("fista", "far4"), ("fista", "far5"), ("fista", "farc"),
             ("active_set", "cold"), ("active_set", "ones"), ("active_set", "pos_small"), ("active_set", "pos_big"),
@@ -38,6 +43,7 @@ CHEAP_VARIANTS = [("active_set", v) for v in ("cold", "ones", "pos_small", "pos_
                  [("fista", "partial_b"), ("fista", "pos_big"), ("fista", "subopt_b"), ("fista", "trunc")]
 WARM = ("ones", "pos_small", "pos_big", "partial_a", "partial_b", "other", "subopt_a", "subopt_b", "far4", "far5", "farc")
 FAR = ("far4", "far5", "farc")      # 1e4 x / 1e5 x random positive; 2^17 on the complement of the solution's support
+CBS = ("cb_tuple", "cb_float", "cb_false", "cb_true3")
 HALS_CAP_FAR = 4000                 # sweeps for the far starts (linear convergence has 1e5 more to go)
 # length of the truncated first run whose output is the start of the second, full run (chained calls)
 TRUNC = {("active_set", "trunc1"): 1, ("active_set", "trunc2"): 2, ("fista", "trunc"): 10, ("hals", "trunc"): 2}
@@ -108,7 +114,10 @@ def _reference(G, B, l1, l2):
 MAGS = (-40, -20, 0, 30)     # binary exponents of the change of units (NNLSTrace.tla: MagSet); float32 runs use -15 / 0
 
 
-def _run(case, G, B, start, n_iter=None):
+ERRSTATE_KEYS = ("divide", "over", "invalid")   # underflow is left at the caller's default: iterates legitimately decay to denormals
+
+
+def _run(case, G, B, start, n_iter=None, use_cb=True):
     """one call of the solver of this case from `start` (None = the solver's default start).
 
     Change of units (exact in binary floating point): the design is multiplied by 2^sa and the data by 2^sb, i.e. the
@@ -130,6 +139,29 @@ def _run(case, G, B, start, n_iter=None):
     st = None if start is None else np.ldexp(np.asarray(start, dtype=np.float64), sb - sa).astype(fdt)
     solver, variant = case["solver"], case["variant"]
     eps = case.get("ep", 0) / case.get("eq", 1) * xs
+    # call environment: memory layout of every array argument (hals documents V as mutable: no read-only V there),
+    # caller-side error / warning settings, and bit-for-bit comparison of the arguments after the call
+    layout, err = case.get("layout", "C"), case.get("err", "default")
+    Gs, Bs = lay(Gs, layout), lay(Bs, layout)
+    if st is not None:
+        st = lay(st, "C" if (layout == "readonly" and solver == "hals") else layout)
+    before = (bits(Gs), bits(Bs), None if st is None else bits(st))
+    cb = case.get("cb", "none") if use_cb else "none"
+    calls = []
+
+    def callback(V, e):
+        """documented contract: the solver stops iff the callback returns True"""
+        calls.append(1)
+        if cb == "tuple":
+            return (None, None)                  # what `lambda V, e: (log.append(e), its.append(V))` returns: truthy, not True
+        if cb == "float":
+            return float(e) + 1.0                # truthy, not True
+        if cb == "false":
+            return (False, 0, None)[len(calls) % 3]
+        if cb == "true3":
+            return len(calls) == 3               # True at the third sweep
+        raise ValueError(cb)
+
     if solver == "hals":
         if n_iter is not None:
             kw = dict(n_iter_max=n_iter, tol=1e-16)
@@ -141,22 +173,29 @@ def _run(case, G, B, start, n_iter=None):
             kw["nonzero_rows"] = True
         if case.get("ep", 0):
             kw["epsilon"] = eps
-        out = hals_nnls(Bs.copy(), Gs.copy(), V=None if st is None else st.copy(), sparsity_coefficient=(l1 if case["p1"] else None),
-                        ridge_coefficient=(l2 if case["p2"] else None), **kw)
+        if cb != "none":
+            kw["callback"] = callback
+        Vin = None if st is None else st.copy()          # V is documented as mutable: hand over a private copy
+        with callenv(err, ERRSTATE_KEYS), contextlib.redirect_stdout(io.StringIO()):
+            out = hals_nnls(Bs, Gs, V=Vin, sparsity_coefficient=(l1 if case["p1"] else None),
+                            ridge_coefficient=(l2 if case["p2"] else None), **kw)
     elif solver == "fista":
         tol = 0.0 if variant == "tol0" else 1e-16
-        out = fista(Bs.copy(), Gs.copy(), x=None if st is None else st.copy(), sparsity_coef=l1, ridge_coef=l2, tol=tol,
-                    n_iter_max=n_iter if n_iter is not None else case.get("cap", FISTA_CAP),
-                    epsilon=eps if case.get("ep", 0) else 1e-8 * xs)        # the documented default floor, in the units of x
+        with callenv(err, ERRSTATE_KEYS):
+            out = fista(Bs, Gs, x=st, sparsity_coef=l1, ridge_coef=l2, tol=tol,
+                        n_iter_max=n_iter if n_iter is not None else case.get("cap", FISTA_CAP),
+                        epsilon=eps if case.get("ep", 0) else 1e-8 * xs)    # the documented default floor, in the units of x
     elif solver == "active_set":
         cols = []
         for j in range(k):
-            x0 = None if st is None else st[:, j].copy()
-            cols.append(np.asarray(active_set_nnls(Bs[:, j].copy(), Gs.copy(), x=x0, tol=1e-16 * ms,
-                                                   n_iter_max=n_iter if n_iter is not None else 100)).reshape(n))
+            x0 = None if st is None else st[:, j]
+            with callenv(err, ERRSTATE_KEYS):
+                cols.append(np.asarray(active_set_nnls(Bs[:, j], Gs, x=x0, tol=1e-16 * ms,
+                                                       n_iter_max=n_iter if n_iter is not None else 100)).reshape(n))
         out = np.stack(cols, axis=1)
     elif solver == "admm":
-        x, _, _ = admm(Bs.T.copy(), Gs.copy(), np.zeros((k, n), dtype=fdt), np.zeros((k, n), dtype=fdt), n_const=None)
+        with callenv(err, ERRSTATE_KEYS):
+            x, _, _ = admm(Bs.T, Gs, np.zeros((k, n), dtype=fdt), np.zeros((k, n), dtype=fdt), n_const=None)
         out = np.asarray(x).T
     else:
         raise ValueError(solver)
@@ -164,7 +203,9 @@ def _run(case, G, B, start, n_iter=None):
     # "is a row entirely zero" / "is an entry below the bound" are measured on the array the solver returned, in its own
     # units: dividing by 2^(sb-sa) can flush a denormal entry (a row decaying towards 0) to exactly 0
     case["_meas"] = {"zero_rows": int(np.sum(np.all(raw == 0, axis=1))) if raw.ndim == 2 else 0,
-                     "nlow": int(np.sum(raw < eps))}
+                     "nlow": int(np.sum(raw < eps)),
+                     "mutG": bits(Gs) != before[0], "mutB": bits(Bs) != before[1],
+                     "mutS": st is not None and bits(st) != before[2], "ncalls": len(calls)}
     return raw / xs
 
 
@@ -179,7 +220,10 @@ def solve(case, G, B):
         start = _reference(G, B, case["p1"] / case["q"], case["p2"] / case["q"])
     if case.get("trunc"):
         # chained calls: resume from the output of a truncated run of the same solver
-        start = np.asarray(_run(case, G, B, None, n_iter=case["trunc"]), dtype=np.float64).reshape(n, k)
+        start = np.asarray(_run(case, G, B, None, n_iter=case["trunc"], use_cb=False), dtype=np.float64).reshape(n, k)
+    if case.get("cb") == "true3":
+        # the callback returns True at the third sweep: the result must be the iterate after three sweeps
+        case["_xref"] = _run(case, G, B, start, n_iter=3, use_cb=False)
     return _run(case, G, B, start)
 
 
@@ -224,7 +268,9 @@ def execute(case):
     ev = {"id": case["id"], "kind": case["kind"], "solver": case["solver"], "variant": case["variant"], "mode": case["mode"],
           "p1": case["p1"], "p2": case["p2"], "q": case["q"], "raised": False, "exc": "", "size": 0, "nlow": 0, "x": [], "xf": [],
           "nzr": bool(case.get("nzr", False)), "zero_rows": 0, "ep": case.get("ep", 0), "eq": case.get("eq", 1),
-          "sa": case.get("sa", 0), "sb": case.get("sb", 0), "dt": case.get("dt", "float64")}
+          "sa": case.get("sa", 0), "sb": case.get("sb", 0), "dt": case.get("dt", "float64"),
+          "layout": case.get("layout", "C"), "err": case.get("err", "default"), "cb": case.get("cb", "none"),
+          "mutG": False, "mutB": False, "mutS": False, "xref": [], "xreff": []}
     if case["kind"] == "exact":
         ev.update(G=case["G"], B=case["B"])
     else:
@@ -235,6 +281,9 @@ def execute(case):
         if X.shape == (n, k):
             ev["x"] = _cols(X)
             ev["xf"] = _fine(X)
+            ev.update(mutG=bool(case["_meas"]["mutG"]), mutB=bool(case["_meas"]["mutB"]), mutS=bool(case["_meas"]["mutS"]))
+            if "_xref" in case:
+                ev["xref"], ev["xreff"] = _cols(case["_xref"]), _fine(case["_xref"])
             ev["nlow"] = case["_meas"]["nlow"]                  # entries below the bound (0 or epsilon), on the returned floats
             ev["zero_rows"] = case["_meas"]["zero_rows"]
             if case["kind"] == "kkt":
@@ -295,6 +344,11 @@ def build_cases(chk, cfgs, thorough):
         """binary exponents (sa, sb) of the change of units of one problem: 40% unscaled, else any of the 16 pairs"""
         return (0, 0) if rng.random() < 0.4 else (rng.choice(MAGS), rng.choice(MAGS))
 
+    def draw_env():
+        """memory layout of the array arguments and caller-side error settings of one call"""
+        return {"layout": "C" if rng.random() < 0.5 else rng.choice(("F", "strided", "readonly")),
+                "err": "default" if rng.random() < 0.6 else rng.choice(("ignore", "raise", "warnerr"))}
+
     def draw_units():
         """(dtype of UtU / UtM, sa, sb): a quarter of the problems are posed with integer-typed normal equations"""
         if rng.random() < 0.25:
@@ -328,6 +382,10 @@ def build_cases(chk, cfgs, thorough):
                 if pi % 3 != FAR.index(variant):
                     continue
                 opt["cap"] = HALS_CAP_FAR
+            if variant.startswith("cb_"):
+                if pi % 2 != CBS.index(variant) % 2:
+                    continue
+                opt["cb"] = variant[3:]
             if variant == "nzr":
                 opt["nzr"] = True
             if variant == "eps":
@@ -351,6 +409,9 @@ def build_cases(chk, cfgs, thorough):
                 elif variant == "farc":
                     src = sol
                 start = make_start(variant, rng, n, k, src)
+            if variant.startswith("cb_") and pi % 4 >= 2:
+                start = make_start("ones", rng, n, k, None)
+            opt.update(draw_env())
             c = {"id": "C13/%s-%s/%06d" % (solver, variant, len(cases)), "kind": "exact", "solver": solver, "variant": variant,
                  "mode": mode, "G": [list(r) for r in G], "B": cols, "p1": p1, "p2": p2, "q": q_, "start": start, "flags": flags,
                  "sa": sa, "sb": sb, "dt": dt}
@@ -400,6 +461,11 @@ def build_cases(chk, cfgs, thorough):
                 opt["nzr"] = True
             if (solver, variant) in TRUNC:
                 opt["trunc"] = TRUNC[(solver, variant)]
+            if variant.startswith("cb_"):
+                if t % 2 != CBS.index(variant) % 2:
+                    continue
+                opt["cb"] = variant[3:]
+            opt.update(draw_env())
             start = None
             if variant in WARM and not (solver == "hals" and variant == "ones"):
                 src = other
@@ -461,6 +527,8 @@ def run(chk, opts):
         "magnitude: problems are also posed in other units (design * 2^a, data * 2^b, a, b in {-40,-20,0,30}; float32 with a = -15 in the measured tier); "
         "options that are absolute by documentation (fista/hals epsilon, active_set tol) are scaled with the units -- the documented absolute defaults "
         "(fista epsilon=1e-8 floor, active_set tol=1e-7 on the gradient) are NOT exercised in small units",
+        "call environment: every call draws a memory layout (C / Fortran / strided / read-only) for UtU, UtM and the start (hals' V is documented mutable: never read-only) and caller-side np.errstate(divide/over/invalid = ignore|raise) or warnings-as-errors; UtU, UtM (and the start of fista / active_set) must be bit-identical after the call",
+        "hals callback: return values that are falsy or truthy-but-not-True must not stop the solver; True at sweep 3 must return the iterate after 3 sweeps",
         "dtype: a quarter of the problems pass int64 / int32 UtU and UtM (with floating-point warm starts); float32 in the measured tier",
         "options: hals nonzero_rows=True (no all-zero row unless the solution is zero), epsilon=1/2 for hals and fista (minimiser over x >= epsilon); "
         "chained starts: output of a truncated run of the same solver, exact minimiser restricted to a random support",
